@@ -48,6 +48,7 @@ type FuncContract struct {
 	Inline    bool
 	Uses      []string
 	Refines   string // functype contract this function implements, e.g. "stepFunc"
+	Implements string // interface method contract this method implements, e.g. "Err.Code"
 	Props     []string
 	File      string
 	Line      int
@@ -133,7 +134,7 @@ var blockKw = map[string]bool{"func": true, "spec": true, "predicate": true, "ax
 	"ghostfield": true, "functype": true, "interface": true, "guard": true, "const": true, "extern": true, "package": true}
 var clauseKw = map[string]bool{"requires": true, "ensures": true, "modifies": true, "decreases": true, "loop": true,
 	"uses": true, "trusted": true, "pure": true, "inline": true, "nopanic": true, "maypanic": true, "induction": true,
-	"refines": true, "props": true, "trigger": true, "read": true, "write": true}
+	"refines": true, "implements": true, "props": true, "trigger": true, "read": true, "write": true}
 
 func firstWord(s string) (string, string) {
 	s = strings.TrimSpace(s)
@@ -470,6 +471,10 @@ func (c *Contracts) parseLines(lines []srcLine, scope string) error {
 		case "refines":
 			if curF != nil {
 				curF.Refines = strings.TrimSpace(s.rest)
+			}
+		case "implements":
+			if curF != nil {
+				curF.Implements = strings.TrimSpace(s.rest)
 			}
 		case "props":
 			if curF != nil {
